@@ -11,6 +11,38 @@ NOTE = ("Trusted base: Lean 4.33 kernel (+ leanchecker re-check in the thorough 
         "string/Duration/BTreeSet/StableVec semantics, derive_builder/strum/derive_more/shorthand generated code, derived PartialEq/Ord/Hash. ")
 
 CLAIMS = {
+    "C01": {
+        "technique": "Lean 4 proof (segment assembly closed form, one segment per URI line in order, playlist-level values as the fold of the header tags, exact classification of the loop's rejections, closed forms of the attribute loops) + abstract playlists written from RFC 8216 with an independent expectation, run on library and model",
+        "text": ("Proof (Lean 4, Props/C01.lean): segment_faithful - the segment flushed at a URI line is determined by the tags since the previous URI line and "
+                 "nothing before it: duration/title = last EXTINF, byte range = last BYTERANGE, discontinuity = some DISCONTINUITY tag, program date-time, date "
+                 "range, map with the keys in effect where it stands, URI, keys = keys in effect at the URI; segments_in_order - one segment per URI line, in "
+                 "order, with that URI; built_keeps - build() changes number, IV completion and byte-range offset only (those are C07/C08); header_values - every "
+                 "playlist-level value is the fold of the playlist-level tags (last tag of a kind wins, flags by presence), unknown tags in source order; "
+                 "mediaStep_err_iff - the line loop rejects for exactly three reasons (master tag, URI without EXTINF, misplaced DISCONTINUITY-SEQUENCE); "
+                 "map_faithful / dateRange_faithful / key_faithful (+ C02's) - each tag's parser equals the closed form in the last value written per attribute "
+                 "name, whatever blanks surround names, '=', values and ','; quoted strings come back exactly (C02.quoted_values_exact); client attributes are typed "
+                 "by clientStep. k1_counterexample - the recorded over-strict independent-segments rule. PARTIAL: 'no valid playlist is rejected' is proved for "
+                 "the loop (exact rejection reasons) and characterised for build() by C08/C09; the decimal -> nanoseconds fact FL2 is a named hypothesis (C18). "
+                 "Tie + oracle: abstract media playlists (what the text says) rendered in varied surface syntax; the library's report must equal the abstract "
+                 "playlist field by field (segment list, URIs, durations to the ns, titles, flags, date ranges with typed client attributes, maps, byte ranges, all "
+                 "playlist-level values, unknown tags) and the text must be accepted; library and model must agree on status and observation."),
+        "design_ref": "DESIGN.md §7 C01",
+        "note": "K1 (independent-segments rule rejects mixed methods) reported as KNOWN-FINDING; K8 (prefix look-alike tags) was repaired by a fix: commit.",
+    },
+    "C02": {
+        "technique": "Lean 4 proof (collection in source order, exact acceptance condition, closed forms of the attribute loops, exact recovery of quoted strings) + abstract master playlists written from RFC 8216 with an independently computed expected observation, run on library and model",
+        "text": ("Proof (Lean 4, Props/C02.lean): master_lists_in_order - the five result lists are exactly the tags of their kind in source order, flags = presence, "
+                 "start = last EXT-X-START, unknown tags in source order; master_accepted_iff - accepted exactly when every line is a master-playlist line and the "
+                 "cross-tag rules of C13 hold for the collected lists (nothing else rejects); xmedia_faithful, sessionData_faithful, sessionKey_faithful, "
+                 "start_faithful, streamData_faithful, streamInf_attrs_faithful - for any blanks around names, '=', values and ',', each parser equals the closed "
+                 "form of Proofs/AttrFold: every field is the parse / unquoting of the LAST value written for its name; quoted_values_exact - NAME=\"string\" "
+                 "attributes tokenize and unquote to exactly the strings, commas and '=' inside never split or truncate. Value-level parsers (integers to 2^64-1, "
+                 "67 in-stream ids, enums, resolution, channels, codecs) are C18's theorems. Tie + oracle: abstract master playlists rendered in varied surface "
+                 "syntax; the library's observation must EQUAL the one computed from the abstract playlist (exact rational rounding for binary32), and library and "
+                 "model must agree."),
+        "design_ref": "DESIGN.md §7 C02",
+        "note": "K8 (prefix look-alike of a value-less tag taken for the tag) was found by this check and repaired by a fix: commit.",
+    },
     "C03": {
         "technique": "Lean 4 proof (writer and parser key sets refine one specification and are therefore equal after every written key line; text-level reduction of to_string/try_from to the typed-line state machine; counterexample theorems for the recorded findings) + exhaustive key/map/segment histories through try_from -> to_string -> try_from -> to_string on library and model",
         "text": ("Proof (Lean 4, Props/C03.lean): writer_refines - the writer's handling of one segment key moves its 'already announced' set along the RFC key "
